@@ -58,7 +58,7 @@ Section MsgFacts.
   Definition tp_body (p : profile) (cd : codec) (src : list N) (b16 b17 : N) : dres pmsg notif :=
     let mlen := be16 b16 b17 in
     if (mlen <? 19) || (max_len cd <? mlen) then DErr (mkn 1 2 [b16; b17]) src else
-    if len src <? mlen then DNeed else
+    if len src <? mlen then DNeed src else
     match parse_message other_nlri p cd (firstn (nat_of mlen) src) with
     | Ok m => DMsg m (skipn (nat_of mlen) src)
     | Fail e => DErr e (skipn (nat_of mlen) src)
@@ -96,10 +96,19 @@ Section MsgFacts.
     - exists (firstn (nat_of (be16 a b)) src). symmetry. apply firstn_skipn.
   Qed.
 
-  Theorem C03_bgp_complete_frame_decided p cd :
-    complete_frame_decided (try_parse other_nlri p cd) (bgp_complete (max_len cd)).
+  Lemma try_parse_need p cd src rest : try_parse other_nlri p cd src = DNeed rest -> rest = src.
   Proof.
-    intros src (H19 & l & Hl & Hc).
+    unfold try_parse. intro H.
+    destruct (len src <? 19); [injection H as <-; reflexivity|].
+    destruct (nth_error src 16); [|discriminate]. destruct (nth_error src 17); [|discriminate].
+    destruct (_ || _); [discriminate|]. destruct (len src <? _); [injection H as <-; reflexivity|].
+    destruct (parse_message _ _ _ _); discriminate.
+  Qed.
+
+  Lemma try_parse_complete_not_need p cd src rest :
+    bgp_complete (max_len cd) src -> try_parse other_nlri p cd src <> DNeed rest.
+  Proof.
+    intros (H19 & l & Hl & Hc).
     assert (H : (len src <? 19) = false) by lia.
     destruct (try_parse_unfold p cd src H) as (a & b & Ha & Hb & ->).
     unfold bgp_length_field in Hl. rewrite Ha, Hb in Hl. injection Hl as <-.
@@ -108,9 +117,17 @@ Section MsgFacts.
     destruct (parse_message _ _ _ _); discriminate.
   Qed.
 
+  Theorem C03_bgp_complete_frame_decided p cd :
+    complete_frame_decided (try_parse other_nlri p cd) (bgp_complete (max_len cd)).
+  Proof. intros src rest Hc H. exfalso. exact (try_parse_complete_not_need p cd src rest Hc H). Qed.
+
   Theorem C03_bgp_need_only_if_incomplete p cd :
     need_only_if_incomplete (try_parse other_nlri p cd) (bgp_complete (max_len cd)).
-  Proof. intros src H Hc. exact (C03_bgp_complete_frame_decided p cd src Hc H). Qed.
+  Proof.
+    intros src rest H. pose proof (try_parse_need _ _ _ _ H) as ->. split.
+    - intro Hc. exact (try_parse_complete_not_need p cd src src Hc H).
+    - exists []. reflexivity.
+  Qed.
 
   Lemma firstn_app_le {A} n (a b : list A) : (n <= length a)%nat -> firstn n (a ++ b) = firstn n a.
   Proof. intro H. rewrite firstn_app. replace (n - length a)%nat with 0%nat by lia. cbn [firstn]. apply app_nil_r. Qed.
@@ -144,11 +161,12 @@ Section MsgFacts.
 
   Theorem C03_bgp_fragmentation_invariant p cd : fragmentation_invariant (try_parse other_nlri p cd).
   Proof.
-    refine (stream_fragmentation_invariant (try_parse other_nlri p cd) _ _ _ _).
+    refine (stream_fragmentation_invariant (try_parse other_nlri p cd) _ _ _ _ _).
     - exact (C03_bgp_parse_no_panic p cd).
     - intros buf m rest H. exact (proj1 (C03_bgp_parse_consumes p cd buf m rest H)).
     - intros buf m rest ext. exact (proj1 (try_parse_ext p cd buf ext) m rest).
     - intros buf e rest ext. exact (proj2 (try_parse_ext p cd buf ext) e rest).
+    - intros buf rest ext H. rewrite (try_parse_need _ _ _ _ H). reflexivity.
   Qed.
 End MsgFacts.
 
